@@ -16,7 +16,17 @@ def run(ctx):
     if s3["extra"]["traces"] < 3:
         raise core.Machinery("corpus driver found fewer than 3 usable files")
     ctx.validate_traces_all("MdatTrace", "MdatTrace.cfg", tr, what="MdatTrace.tla rejected recorded range reads on a corpus file")
-    ctx.cov["bounds"] = {"ranges": "all valid (start,size) for payload length 1..%d, header forms {8,16}, orders {moov-mdat, mdat-moov, fragmented}" % (5 if q else 9),
+    # the segmenter example with and without -lazy on the progressive inputs of Segmenter.tla (a sample of them in the quick tier)
+    seg = ctx.build_repo_binary("./examples/segmenter", "segmenter")
+    rs = ctx.tlc_ok("Segmenter", "Seg_prog_%s.cfg" % ("quick" if q else "thorough"), workers=14, timeout=3000, heap="16g", stack="128m")
+    ex = sorted(rs.exported, key=lambda e: str(e))
+    step = 6 if q else 3
+    ex = [e for i, e in enumerate(ex) if i % step == ctx.seed % step]
+    s4 = core.absorb(ctx, ctx.harness(["c08-segmenter", "-in", ctx.write_ndjson("segprog.ndjson", ex), "-segmenter", seg], timeout=3000))
+    if s4["extra"]["compared"] < 50:
+        raise core.Machinery("segmenter outputs compared for only %d runs (dead driver?)" % s4["extra"]["compared"])
+    ctx.cov["bounds"] = {"segmenter_lazy_vs_memory": "%d pairs of runs (one file per track and -m) over %d Segmenter.tla inputs" % (s4["extra"]["compared"], len(ex)),
+                         "ranges": "all valid (start,size) for payload length 1..%d, header forms {8,16}, orders {moov-mdat, mdat-moov, fragmented}" % (5 if q else 9),
                          "copy": "all chunkings of 1..%d samples, all intervals, all work-buffer sizes 0..payload+1" % (3 if q else 5),
                          "trace_events": s3["extra"]["events"]}
     ctx.cov["rule"] = ("behaviours = (layout, operation) pairs enumerated by Mdat.tla; each replayed on a materialised file in normal, lazy "
